@@ -350,7 +350,14 @@ def r5(ctx):
     ctx.floor("seed + payload checks", n, 4)
 
 
+def r6(ctx):
+    # re-initialisation: a snapshot must REPLACE the local book (shared with C05.R4); an accepted update is upserted
+    from rules import C05
+    C05.r4(ctx)
+
+
 RULES = [
+    ("R6", "OrderBook::update: a (re-initialisation) snapshot replaces the whole book; updates are upserted with their sequence", r6),
     ("R1", "sequencing predicate == venue rule on every assignment of the integer box (spot and USD futures)", r1),
     ("R2", "sequencer state advances only on acceptance, to the accepted update's id; who-may-write", r2),
     ("R3", "transformer outcome table: nothing / unidentifiable error / sequencer error surfaced / one keyed update", r3),
